@@ -128,9 +128,14 @@ func c17Gen(rng *verifsim.RNG, idx int, tier string) *Plan {
 		if seam == "rtnl.addr" {
 			err = "nl.EPERM"
 		}
-		t0 := int64(rng.Dur(0, horizon))
+		t0 := int64(rng.Dur(0, horizon)) + jitter(rng)
 		p.Faults = append(p.Faults, Fault{Seam: seam, From: t0, Count: rng.Range(1, 3), Err: err})
-		req(t0 + 1000)
+		if rng.Bool(0.6) {
+			// aimed at a request: armed in the very instant the request is made
+			p.Actions = append(p.Actions, Action{At: t0, Kind: "http", Path: []string{"/metrics", "/_/api/interfaces"}[rng.Intn(2)]})
+		} else {
+			req(t0 + 1000)
+		}
 	}
 	return p
 }
@@ -442,6 +447,14 @@ func c17Oracle(info *runInfo, res *verifsim.Result) {
 					chk("corerad_interface_advertising", is.Advertise, true)
 					chk("corerad_interface_monitoring", is.Monitor, true)
 					f, okf := fwdRead[ifn]
+					if !okf && fwdErr {
+						// the request's own forwarding read failed, yet it answered:
+						// whatever it reports is held against the system's real state
+						f, okf = worldFwdAt(info, 0, ifn, r.exit.Seq), true
+						if _, has := got[fmt.Sprintf("corerad_interface_forwarding{interface=%s}", ifn)]; !has {
+							okf = false
+						}
+					}
 					chk("corerad_interface_forwarding", f, okf)
 					a, oka := autoRead[ifn]
 					chk("corerad_interface_autoconfiguration", a, oka)
